@@ -88,6 +88,52 @@ func VH_C17_token(n int) {
 	verif.Cover("end")
 }
 
+// VH_C17_header: the whole authorization header value is arbitrary (ASCII,
+// up to 7+n+1 bytes). The oracle is the documented contract, written without
+// the library: accepted iff the header is <scheme> SP <token> with the scheme
+// matching "bearer" case-insensitively and the token byte-for-byte equal to
+// the configured one.
+func VH_C17_header(n int) {
+	T := verif.String(n)
+	present := verif.Bool()
+	h := ""
+	if present {
+		h = verif.String(verif.Concretize(verif.Int(), 0, 7+n+1))
+	}
+	for i := 0; i < len(h); i++ {
+		verif.Assume(h[i] < 0x80)
+	}
+	for i := 0; i < len(T); i++ {
+		verif.Assume(T[i] < 0x80)
+	}
+	want := false
+	if present && len(h) == 7+len(T) {
+		// branch-free: bit 5 is the only difference between the two cases of an ASCII letter
+		diff := byte(0)
+		for i := 0; i < 6; i++ {
+			diff |= (h[i] | 0x20) ^ "bearer"[i]
+		}
+		diff |= h[6] ^ ' '
+		want = diff == 0 && h[7:] == T
+	}
+	var impl any
+	if verif.Bool() {
+		impl = &regattaserver.BackupServer{AuthFunc: authFunc(T)}
+	} else {
+		impl = &regattaserver.TablesServer{AuthFunc: authFunc(T)}
+	}
+	reached, err := vhCall(impl, verif.CtxWithAuthHeader(h, present), verif.Bool())
+	if want {
+		verif.Assert(reached && err == nil, "a well-formed bearer header with the right token is accepted")
+		verif.Cover("accepted")
+	} else {
+		verif.Assert(!reached, "any other header: the call has no effect")
+		verif.Assert(status.Code(err) == codes.Unauthenticated, "any other header: Unauthenticated")
+		verif.Cover("rejected")
+	}
+	verif.Cover("end")
+}
+
 // VH_C17_notoken: with no token configured everything passes (documented default).
 func VH_C17_notoken() {
 	_, t, present := vhArbTokens(2)
